@@ -156,6 +156,7 @@ func smallRuns(a *acc, sp *seqSpace, idx int, cfg smallCfg) {
 		for _, pol := range takePolicies {
 			runRunsPartial(a, t, same, "same = "+cl.name, pol)
 		}
+		runsPosition(a, t, same, "same = "+cl.name)
 	}
 }
 
@@ -176,6 +177,7 @@ func smallPeek(a *acc, sp *seqSpace, idx int, cfg smallCfg) {
 			}
 		}
 		runPeek(a, d, ops, string(buf))
+		peekPosition(a, d, ops, string(buf))
 	}
 }
 
@@ -481,9 +483,48 @@ func smallCuts(a *acc, sp *seqSpace, idx int, maxParts int) {
 	for k := 0; k <= maxParts; k++ {
 		forEachCut(d, k, func(parts [][]int) {
 			runMulti(a, parts, func(ps [][]int) []int { return xslices.Join(ps...) })
+			multiPosition(a, parts)
 			if len(d) <= nestedJoinLen {
 				runNestedJoins(a, parts)
 			}
 		})
+	}
+}
+
+func smallIdioms(a *acc, sp *seqSpace, idx int, cfg smallCfg) {
+	idioms(a, sp.seqs[idx], sp.within(idx) == 0)
+}
+
+// ctorSources: every one-source combinator over sequences that have the shape of
+// iterator.Counter(n) and iterator.Repeat(x, n), so that the source-position check also runs
+// directly over those constructors (position.go shapedKinds).
+func ctorSources(a *acc, maxN int) {
+	for n := 0; n <= maxN; n++ {
+		for _, src := range [][]int{refCounter(n), refRepeat(2, n)} {
+			for mask := uint(0); mask < 1<<uint(n); mask++ {
+				byValue := func(x int) bool { return mask>>uint(x)&1 == 1 }
+				if len(src) > 0 && src[0] == 2 && n > 1 {
+					// constant items: a by-value predicate is constant too
+					if mask != 0 && mask != 1<<uint(n)-1 {
+						continue
+					}
+					byValue = func(int) bool { return mask != 0 }
+				}
+				doFilter(a, src, byValue, fmt.Sprintf("keep mask by value %0*b", n, mask), "")
+				doWhile(a, src, byValue, fmt.Sprintf("f mask by value %0*b", n, mask), "")
+			}
+			doMap(a, src, "")
+			doCompact(a, src)
+			doCompactFunc(a, src, func(x, y int) bool { return x/2 == y/2 }, "eq: a/2 == b/2", "")
+			for k := 0; k <= n+1; k++ {
+				doFirst(a, src, k, "")
+			}
+			for c := 1; c <= n+1; c++ {
+				doChunk(a, src, c, "")
+			}
+			for _, e := range []valEq{{"a == b", func(x, y int) bool { return x == y }}, {"a/2 == b/2", func(x, y int) bool { return x/2 == y/2 }}} {
+				runsPosition(a, src, e.f, "same: "+e.name)
+			}
+		}
 	}
 }
